@@ -218,4 +218,63 @@ theorem mixed_two_stage (base : List (String × J)) (hb : SK base) (ld rd : List
         have a3 : lookupKV x (keyed ld) = none := keyed_lookup_none hxl
         simp only [a1, a2, htL x, a3]
 
+/-- the table of a diff with pairwise different keys does not depend on the order of its entries -/
+theorem keyed_lookup_perm {A B : List Op} (hp : A.Perm B) (hndA : (A.map Op.skey).Nodup) (x : String) :
+    lookupKV x (keyed A) = lookupKV x (keyed B) := by
+  have hndB : (B.map Op.skey).Nodup := (hp.map Op.skey).nodup_iff.mp hndA
+  by_cases hx : x ∈ A.map Op.skey
+  · obtain ⟨e, he, rfl⟩ := List.mem_map.mp hx
+    rw [keyed_lookup_mem hndA he, keyed_lookup_mem hndB (hp.subset he)]
+  · have hx' : x ∉ B.map Op.skey := fun h => hx ((hp.map Op.skey).symm.subset h)
+    rw [keyed_lookup_none hx, keyed_lookup_none hx']
+
+/-- patching an object does not depend on the order of the entries (pairwise different keys) -/
+theorem patch_obj_perm (base : List (String × J)) (hb : SK base) (A B : List Op) (hp : A.Perm B)
+    (hndA : (A.map Op.skey).Nodup) (X : J) (h : patch (.obj base) A = .ok X) : patch (.obj base) B = .ok X := by
+  obtain ⟨_, _, _, heffA, _⟩ := patch_obj_table base hb A hndA X h
+  have hndB : (B.map Op.skey).Nodup := (hp.map Op.skey).nodup_iff.mp hndA
+  rw [← h]
+  symm
+  apply patch_table_ext base hb A B hndA hndB heffA (fun e he => heffA e (hp.symm.subset he))
+  intro x
+  rw [keyed_lookup_perm hp hndA x]
+
+/-- the list level: patching different items in either order gives the same list -/
+theorem patchList_comm (xs : List J) (cxs : J.canonicalList xs = true) (dL dR : List Op) (h0 : AscPatch 0 dL) (h1 : AscPatch 0 dR)
+    (hdis : ∀ e0 ∈ dL, ∀ e1 ∈ dR, e0.idx ≠ e1.idx) (RL RX RR RY : List J)
+    (hRL : patchList xs dL 0 = .ok RL) (hRX : patchList RL dR 0 = .ok RX)
+    (hRR : patchList xs dR 0 = .ok RR) (hRY : patchList RR dL 0 = .ok RY) : RX = RY := by
+  -- through a one-key object
+  let base : List (String × J) := [("c", .arr xs)]
+  have hb : SK base := by simp [base, SK, List.Pairwise]
+  have hc : (J.obj base).canonical = true := by
+    simp only [base, J.canonical, keysSorted, J.canonicalKvs, Bool.and_eq_true, J.canonical]
+    refine ⟨by decide, ?_, trivial⟩
+    exact cxs
+  have hk : lookupKV "c" base = some (.arr xs) := by simp [base, lookupKV]
+  have pL : patch (.obj base) [.patchK "c" dL] = .ok (.obj (insertKV "c" (.arr RL) base)) :=
+    patch_obj_patchK base hb "c" dL (.arr xs) (.arr RL) hk (by rw [patch]; simp [hRL, bind, Except.bind])
+  have hsL : SK (insertKV "c" (.arr RL) base) := insertKV_sorted _ _ _ hb
+  have hkL : lookupKV "c" (insertKV "c" (.arr RL) base) = some (.arr RL) := by rw [lookupKV_insertKV]; simp
+  have pX : patch (.obj (insertKV "c" (.arr RL) base)) [.patchK "c" dR] = .ok (.obj (insertKV "c" (.arr RX) base)) := by
+    rw [patch_obj_patchK _ hsL "c" dR (.arr RL) (.arr RX) hkL (by rw [patch]; simp [hRX, bind, Except.bind]),
+      insertKV_twice "c" (.arr RL) (.arr RX) base hb]
+  obtain ⟨R0, hR0, hX0⟩ := patchBoth_cells_comm base hc "c" xs hk dL dR h0 h1 hdis _ _ pL pX
+  have pR : patch (.obj base) [.patchK "c" dR] = .ok (.obj (insertKV "c" (.arr RR) base)) :=
+    patch_obj_patchK base hb "c" dR (.arr xs) (.arr RR) hk (by rw [patch]; simp [hRR, bind, Except.bind])
+  rw [pR] at hR0
+  cases hR0
+  have hsR : SK (insertKV "c" (.arr RR) base) := insertKV_sorted _ _ _ hb
+  have hkR : lookupKV "c" (insertKV "c" (.arr RR) base) = some (.arr RR) := by rw [lookupKV_insertKV]; simp
+  have pY : patch (.obj (insertKV "c" (.arr RR) base)) [.patchK "c" dL] = .ok (.obj (insertKV "c" (.arr RY) base)) := by
+    rw [patch_obj_patchK _ hsR "c" dL (.arr RR) (.arr RY) hkR (by rw [patch]; simp [hRY, bind, Except.bind]),
+      insertKV_twice "c" (.arr RR) (.arr RY) base hb]
+  rw [pY] at hX0
+  have := Except.ok.inj hX0
+  simp only [J.obj.injEq] at this
+  have hl : lookupKV "c" (insertKV "c" (.arr RY) base) = lookupKV "c" (insertKV "c" (.arr RX) base) := by rw [this]
+  rw [lookupKV_insertKV, lookupKV_insertKV] at hl
+  simp at hl
+  exact hl.symm
+
 end Nbdime
